@@ -33,6 +33,13 @@ func (T2) N() {}
 type I1 interface{ M() }
 type I2 interface{ N() }
 
+// named composite types next to their unnamed literal forms: distinct types with
+// the same underlying type. Go's assignability (and reflect's AssignableTo)
+// accepts map[string]any -> Vars and Names <-> []string, but a type assertion
+// v.(T) — what eino's nodes, conditions and converters do — does not.
+type Vars map[string]any
+type Names []string
+
 const (
 	tString = iota
 	tInt
@@ -43,10 +50,28 @@ const (
 	tI1
 	tT2
 	tI2
+	tVars  // named map, twin of tMap
+	tStrs  // []string
+	tNames // named slice, twin of tStrs
 	nTypes
 )
 
-var typeNames = [nTypes]string{"string", "int", "*T1", "T1", "map", "any", "I1", "T2", "I2"}
+// twin: the distinct type with the same underlying type (-1 if none).
+func twin(t int) int {
+	switch t {
+	case tMap:
+		return tVars
+	case tVars:
+		return tMap
+	case tStrs:
+		return tNames
+	case tNames:
+		return tStrs
+	}
+	return -1
+}
+
+var typeNames = [nTypes]string{"string", "int", "*T1", "T1", "map", "any", "I1", "T2", "I2", "Vars", "[]string", "Names"}
 
 var rtypes = [nTypes]reflect.Type{
 	reflect.TypeOf(""),
@@ -58,6 +83,9 @@ var rtypes = [nTypes]reflect.Type{
 	reflect.TypeOf((*I1)(nil)).Elem(),
 	reflect.TypeOf(T2{}),
 	reflect.TypeOf((*I2)(nil)).Elem(),
+	reflect.TypeOf(Vars{}),
+	reflect.TypeOf([]string{}),
+	reflect.TypeOf(Names{}),
 }
 
 func typeIdx(t reflect.Type) int {
@@ -89,9 +117,22 @@ func (l lat) String() string { return [...]string{"must-not", "must", "may"}[l] 
 //	must     every value of the upstream type is assignable downstream
 //	may      upstream is an interface and some dynamic value can be assignable
 //	must-not no value of the upstream type can ever be assignable
+//
+// The lattice is about what a type ASSERTION accepts (a value travels as `any`
+// between nodes): identical types, or a type that implements the downstream
+// interface ⇒ must. It is deliberately NOT reflect's AssignableTo, which also
+// accepts two distinct types with identical underlying types when one of them is
+// unnamed (map[string]any -> Vars, Names <-> []string): those are must-not.
+func asserts(dyn, to reflect.Type) bool {
+	if dyn == to {
+		return true
+	}
+	return to.Kind() == reflect.Interface && dyn.Implements(to)
+}
+
 func refLat(from, to int) lat {
 	f, t := rtypes[from], rtypes[to]
-	if f.AssignableTo(t) {
+	if asserts(f, t) {
 		return latMust
 	}
 	if f.Kind() == reflect.Interface {
@@ -110,7 +151,7 @@ func dynOK(v any, to int) bool {
 	if v == nil {
 		return false
 	}
-	return reflect.TypeOf(v).AssignableTo(rtypes[to])
+	return asserts(reflect.TypeOf(v), rtypes[to])
 }
 
 // ---- dynamic values ----------------------------------------------------------
@@ -131,9 +172,12 @@ var values = []any{
 	mapOf(7),
 	T2{W: "w"},
 	mapOf(T1{V: 3}),
+	Vars(mapOf("s")),
+	[]string{"x", "y"},
+	Names{"x", "y"},
 }
 
-var valueNames = []string{"string", "int", "*T1", "T1", "map[str]", "map[int]", "T2", "map[T1]"}
+var valueNames = []string{"string", "int", "*T1", "T1", "map[str]", "map[int]", "T2", "map[T1]", "Vars", "[]string", "Names"}
 
 // legalValues: ids of the values assignable to declared type t.
 func legalValues(t int) []int {
@@ -467,6 +511,9 @@ func regType[T any](t int) {
 	regPair[T, I1](t, tI1)
 	regPair[T, T2](t, tT2)
 	regPair[T, I2](t, tI2)
+	regPair[T, Vars](t, tVars)
+	regPair[T, []string](t, tStrs)
+	regPair[T, Names](t, tNames)
 }
 
 func init() {
@@ -479,6 +526,9 @@ func init() {
 	regType[I1](tI1)
 	regType[T2](tT2)
 	regType[I2](tI2)
+	regType[Vars](tVars)
+	regType[[]string](tStrs)
+	regType[Names](tNames)
 }
 
 // ---- error inspection --------------------------------------------------------
